@@ -97,7 +97,7 @@ func Write(kind string, v interface{}, pretty bool, api string) (body []byte, ct
 	default:
 		err = fmt.Errorf("unknown writer api %s", api)
 	}
-	return rec.Body.Bytes(), rec.Header().Get("Content-Type"), err
+	return rec.Body.Bytes(), rec.Result().Header.Get("Content-Type"), err
 }
 
 func gzipBytes(b []byte, level int) []byte {
